@@ -173,6 +173,8 @@ func c05Err(err error) string {
 	}
 	msg := err.Error()
 	switch {
+	case boltz.IsReferenceExistsError(err):
+		return "!referenced" // a restricting fk refuses the delete (R-cases)
 	case boltz.IsErrNotFoundErr(err):
 		return "!notfound"
 	case strings.Contains(msg, "unexpected mismatch"):
@@ -461,7 +463,7 @@ func c05Exec(line string) string {
 	if strings.HasPrefix(line, "S ") {
 		return c05SelfExec(line)
 	}
-	if strings.HasPrefix(line, "G ") {
+	if strings.HasPrefix(line, "G ") || strings.HasPrefix(line, "R ") {
 		return c05SchemaExec(line)
 	}
 	if c05env == nil {
@@ -519,6 +521,7 @@ func c05Gen(tier string, seed uint64, out *bufio.Writer) {
 	g.wideStream(tier)
 	c05SelfGen(g, tier)
 	c05SchemaGen(g, tier)
+	c05RestrictGen(g, tier)
 	nh, nx := 1500, 300
 	if tier == "thorough" {
 		nh, nx = 30000, 4000
